@@ -416,6 +416,47 @@ func concHistory(args []string) error {
 		observe2("parser.String()", "six failing parses", fresh, got)
 		fmt.Printf("%s\tParser.String() after failing parses is %q; on a fresh parser %q\n", status, got, fresh)
 	}
+	// a captured literal on a case-insensitive token type: each parse captures ITS token's text, whatever earlier parses saw
+	{
+		lx := lexer.MustSimple([]lexer.SimpleRule{{Name: "WS", Pattern: `\s+`}, {Name: "String", Pattern: `"[^"]*"`}, {Name: "Int", Pattern: `\d+`}, {Name: "Keyword", Pattern: `(?i)select\b`}, {Name: "Ident", Pattern: `[a-zA-Z]+`}})
+		mk := func() *participle.Parser[kwGrammar] {
+			return participle.MustBuild[kwGrammar](participle.Lexer(lx), participle.CaseInsensitive("Keyword"), participle.Elide("WS"))
+		}
+		call := func(p *participle.Parser[kwGrammar], in string) string {
+			v, err := p.ParseString("", in)
+			if err != nil {
+				return "err " + err.Error()
+			}
+			return fmt.Sprintf("%+v", *v)
+		}
+		p := mk()
+		call(p, "SELECT a")
+		got, fresh := call(p, "select b"), call(mk(), "select b")
+		status := "ok"
+		if got != fresh {
+			status = "MISMATCH"
+		}
+		observe2("parser(CaseInsensitive).ParseString select b", "ParseString SELECT a", fresh, got)
+		fmt.Printf("%s\tafter parsing `SELECT a`, `select b` gives %q; on a fresh parser %q\n", status, got, fresh)
+	}
+	// an error returned earlier keeps its text and position when the parser fails again elsewhere
+	{
+		p := participle.MustBuild[strGrammar]()
+		_, err1 := p.ParseString("f1", "x")
+		if err1 != nil {
+			before := err1.Error()
+			for _, in := range []string{"x x", "( \"s\" x", "", "x ( ( (", "a 1 1"} {
+				_, _ = p.ParseString("f2", in)
+			}
+			after := err1.Error()
+			status := "ok"
+			if after != before {
+				status = "MISMATCH"
+			}
+			observe2("read the text of an error returned earlier", "five further failing parses", before, after)
+			fmt.Printf("%s\tan error returned earlier reads %q after further failing parses; it read %q\n", status, after, before)
+		}
+	}
 	// results handed out earlier must not change when the parser is used again (no aliasing of reused storage)
 	for _, e := range examples() {
 		if e.name != "expr" {
